@@ -137,7 +137,7 @@ fn enum_partitions(
 
 /// chunks = literals written with `write!(stream, <literal>)`
 fn literal_chunks(idx: &[usize], acc: &mut Acc) -> Result<(), String> {
-    use std::io::Write;
+
     let whole: Vec<u8> = idx.iter().flat_map(|i| vcore::lits::LITS[*i].as_bytes().to_vec()).collect();
     let want = checks::real::strip_bytes_vec(&whole);
     let mut a = anstream::StripStream::new(Vec::new());
